@@ -258,7 +258,7 @@ theorem patternLoop_placeable_step (s : Src) (n : Nat) (st : PatState) (p : Nat)
 /-- what follows the pattern's line: end of input, or a line that starts with a byte that cannot
 continue the pattern -/
 def LineEndOK (s : Src) (q : Nat) : Prop :=
-  s.size ≤ q ∨ ∃ b, s[q]? = some b ∧ b ≠ 123 ∧ b ≠ 32 ∧ b ≠ 10 ∧ b ≠ 13
+  s.size ≤ q ∨ ∃ b, s[q]? = some b ∧ b ≠ 123 ∧ b ≠ 32 ∧ b ≠ 10 ∧ (b = 13 → s[q + 1]? ≠ some 10)
 
 theorem patternLoop_end (s : Src) (n : Nat) (st : PatState) (q : Nat) (hrole : st.role = .lineStart)
     (hend : LineEndOK s q) : getPatternLoop s (n + 1) st q = .ok st q := by
@@ -271,7 +271,11 @@ theorem patternLoop_end (s : Src) (n : Nat) (st : PatState) (q : Nat) (hrole : s
     have h3 : isEol s q = false := by
       unfold isEol
       rw [hb]
-      split <;> simp_all
+      split
+      · rename_i hh; cases hh; exact absurd rfl b3
+      · rename_i hh; cases hh; simpa using b4 rfl
+      · rename_i hh; cases hh
+      · rfl
     simp only [hlt, if_true, h1, Bool.false_eq_true, if_false, hrole, beq_self_eq_true, h2, Nat.sub_self, hb, h3,
       Bool.not_false]
 
